@@ -644,6 +644,8 @@ pub fn run_c07(cfg: &Cfg) -> (Part, Value, bool) {
         let mut spec = spec_edits(depth_pool(k), maxl, Idx::Narrow, 1);
         spec.inserts = true;
         let nacts = alphabet(&spec, k, maxl.min(129)).len();
+        // the fixed kinds have small edit alphabets: one level deeper in the thorough tier
+        let depth = if !q && k.cap().is_some() { depth + 1 } else { depth };
         let o = explore(cfg, &mut part, &seen, &format!("depth-{} {} edits", depth, k.name()), roots, &spec, Some(depth), 30_000_000, Level::Lite);
         bounds.push(json!({"subject": k.name(), "mode": "depth", "depth": depth, "roots": nroots, "root_lengths": lengths, "actions_per_state": nacts, "states": o.states}));
     }
